@@ -26,6 +26,10 @@ func init() {
 			r.Notes = append(r.Notes, "replay: "+err.Error())
 			return
 		}
+		if rp.Case.Transfer == -999 {
+			c23DuringUpdate(r, true)
+			return
+		}
 		r.noteCase(fmt.Sprint(rp.Case), true)
 		for _, v := range judgeC23(rp.Case) {
 			v.Ops, v.Case = []string{fmt.Sprintf("%+v", rp.Case)}, rp.Case
@@ -227,6 +231,60 @@ func checkC23(r *Result, rng *rand.Rand, thorough bool) {
 		}
 	}
 	r.sample(fmt.Sprint(sizes))
+	c23DuringUpdate(r, thorough)
+}
+
+// c23DuringUpdate: "including values set at runtime" — while UpdateTuningOptions is swapping the transfer size
+// (between the default, written as 0, and explicit values) READs of a non-empty file with a count far below
+// every advertised maximum keep being sent; each must return data.
+func c23DuringUpdate(r *Result, thorough bool) {
+	fs := NewRefFS()
+	seedFS(fs, []string{"file /big " + hx(make([]byte, 3000))})
+	w := newWorldOn(fs, SrvCfg{AttrTTL: 1})
+	defer w.Close()
+	w.noTrace = true
+	cred := rootCred()
+	bh, _ := w.handleFor("/big", cred)
+	dur := 250 * time.Millisecond
+	if thorough {
+		dur = 2 * time.Second
+	}
+	stop := make(chan struct{})
+	done := make(chan struct{})
+	go func() {
+		defer close(done)
+		for i := 0; ; i++ {
+			select {
+			case <-stop:
+				return
+			default:
+			}
+			v := []int{0, 4096, 0, 65536}[i%4]
+			w.srv.NFS.UpdateTuningOptions(func(t *absnfs.TuningOptions) { t.TransferSize = v })
+		}
+	}()
+	reads, empty := 0, 0
+	var first string
+	deadline := time.Now().Add(dur)
+	for time.Now().Before(deadline) {
+		rep := w.srv.Call(progNFS, 3, 6, cred, argRead(bh, 0, 512))
+		reads++
+		res := decodeNfs(6, rep.Data)
+		if rep.Err != nil || res.Bad || res.Status != 0 || res.Count == 0 {
+			empty++
+			if first == "" {
+				first = fmt.Sprintf("err=%v status=%d count=%d eof=%v", rep.Err, res.Status, res.Count, res.Eof)
+			}
+		}
+	}
+	close(stop)
+	<-done
+	r.noteCase("read-during-tuning-update", true)
+	r.Histogram["reads-during-update"] += reads
+	if empty > 0 {
+		r.violate(Violation{Class: "read-empty-during-update", What: fmt.Sprintf("%d of %d READs (count 512, offset 0, 3000-byte file) sent while UpdateTuningOptions was switching TransferSize returned no data (first: %s)", empty, reads, first),
+			Ops: []string{"read-during-tuning-update"}, Case: c23Case{Transfer: -999}})
+	}
 }
 
 // c23Twin: the same configuration on a small file with small counts, traced for the Lean model (FSINFO body,
